@@ -9,6 +9,7 @@ mod mk;
 mod model;
 mod obs;
 mod par;
+mod prattk;
 mod props;
 mod rng;
 mod val;
@@ -50,6 +51,7 @@ fn main() {
                 "C02" => props::c02::run(&cx),
                 "C03" => props::c03::run(&cx),
                 "C04" => props::c04::run(&cx),
+                "C09" => props::c09::run(&cx),
                 other => {
                     eprintln!("unknown property {}", other);
                     3
